@@ -94,7 +94,12 @@ def global_kw(g):
 def icon_bytes(g):
     if g.get("icon") is not None:
         return g["icon"]
-    return W.fill_stream(g["icon_size"], g["icon_seed"]) if g["icon_size"] else b""
+    c = g.get("_icon_cache")
+    if c is None or c[0] != (g["icon_seed"], g["icon_size"]):
+        c = ((g["icon_seed"], g["icon_size"]),
+             W.fill_stream(g["icon_size"], g["icon_seed"]) if g["icon_size"] else b"")
+        g["_icon_cache"] = c
+    return c[1]
 
 
 def hwid_effective(g):
